@@ -283,7 +283,33 @@ def _scan(n):
                    patches=[(cellmod, "_decode_date_format_field", fake_field)])
 
 
+def tag_date(self):
+    return "DATE"
+
+
+def tag_duration(self):
+    return "DURATION"
+
+
+def h14d_dispatch(secs, is_date):
+    """a date (duration) cell read from a document that carries a date (duration) format is displayed through that format,
+    whatever its stored value - the epoch instant and the zero duration included"""
+    from numbers_parser.cell import DateCell
+    cell = DateCell.__new__(DateCell) if is_date else DurationCell.__new__(DurationCell)
+    cell._duration_format_id = None if is_date else 3
+    cell._date_format_id = 3 if is_date else None
+    cell._text_format_id = cell._num_format_id = cell._currency_format_id = cell._bool_format_id = None
+    cell._seconds = secs if is_date else None
+    cell._double = None if is_date else secs
+    cell._value = None
+    assert cell.formatted_value == ("DATE" if is_date else "DURATION")
+
+
 HARNESSES = [
+    Harness("H14d", h14d_dispatch, dict(secs=IntDom(-10 ** 10, 10 ** 10), is_date=BoolDom()),
+            bounds="stored seconds any integer within +-10^10 (symbolic, zero included), date and duration cells",
+            stubs=["Cell._date_format / Cell._duration_format replaced by tags (their output is H14a / H14c's subject)"],
+            patches=[(Cell, "_date_format", tag_date), (Cell, "_duration_format", tag_duration)]),
     Harness("H14a", h14a_directive,
             dict(field=Cases(NUMERIC + NAMED), year=IntDom(), month=IntDom(), day=IntDom(), hour=IntDom(), minute=IntDom(), second=IntDom(),
                  micro=IntDom()),
